@@ -399,7 +399,12 @@ def q_r5_trnuid(p: Project, schema: Schema, rep: Report):
                 rep.check("Q-R5", f"{nm}:{m.name}(trnuid)", ok, f"trnuid of {m.name} is {vals or 'missing'}: wrappers no longer get their own fresh id" if not ok else "", loc(p, c))
     rep.floor("Q-R5", n, 8, "wrapper constructors")
     ufn = ci.own_func("uuid")
-    ok = ufn is not None and any(isinstance(c, ast.Call) and text(c.func) in ("uuid.uuid4", "uuid.uuid1") for r in own_nodes(ufn) if isinstance(r, ast.Return) and r.value is not None for c in ast.walk(r.value))
+    # every returned value goes back (through the function's own temporaries) to a uuid4()/uuid1() call made in that call
+    ok = False
+    if ufn is not None:
+        ux = Expander(ufn)
+        rets_ = [r for r in own_nodes(ufn) if isinstance(r, ast.Return) and r.value is not None]
+        ok = bool(rets_) and all(any(isinstance(c, ast.Call) and text(c.func) in ("uuid.uuid4", "uuid.uuid1") for c in ast.walk(ux.x(r.value))) for r in rets_)
     rep.check("Q-R5", "uuid:fresh-per-access", ok, "OFXClient.uuid does not generate a new UUID on every access" if not ok else "", loc(p, ufn or ci.node))
     decs = [text(d) for d in ufn.decorator_list] if ufn else []
     ok = "classproperty" in decs and not any("cache" in d for d in decs)
